@@ -901,8 +901,9 @@ func (b *BaseStore) recalculateReplicationProgress() {
 func (b *BaseStore) recalculateReplicationMax(max int) {
 	if opLogLen := b.OpLog().Len(); opLogLen > max {
 		max = opLogLen
+	}
 
-	} else if replMax := b.ReplicationStatus().GetMax(); replMax > max {
+	if replMax := b.ReplicationStatus().GetMax(); replMax > max {
 		max = replMax
 	}
 
